@@ -232,3 +232,27 @@ package nilness
 //@   loop 1   invariant [vals] forall k int :: {vals[k]} 0 <= k && k < q ==> vals[k] == val(s.m, astype(b.Instrs[k], *ir.Phi).Edges[i])
 //@   loop 2   index m
 //@   loop 2   invariant [done] forall k int :: {b.Instrs[k]} 0 <= k && k < m && typeutil.IsPointerLike(vtype(astype(b.Instrs[k], *ir.Phi))) && vals[k] != mk(ValueNilness, 0, 0) ==> val(s.m, astype(b.Instrs[k], *ir.Phi)) == vals[k]
+
+//@ prop C03
+// ---- no panic in the slice-to-array rules ----
+// IR typing invariant (assumed here, established by the IR builder for type-checked code): the
+// type of a SliceToArray instruction is an array type or a type parameter whose type set consists
+// of array types, that of a SliceToArrayPointer one of pointers to arrays; typeutil.All calls
+// its argument with the terms of that type set. Under it the unchecked type assertions of the
+// two rules hold -- on the UNDERLYING type of a term: a term's type itself may be a defined or
+// alias type (type A [4]int).
+//@ extern (*go/types.Term).Type() types.Type
+//@   pure
+//@ extern (go/types.Type).Underlying() types.Type
+//@   pure
+//@ extern (*go/types.Array).Len() int64
+//@   pure
+//@ func impl$1$3
+//@   requires term != nil && istype(term.Type().Underlying(), *types.Array)
+//@ func impl$1$2$1
+//@   requires innerTerm != nil && istype(innerTerm.Type().Underlying(), *types.Array)
+//@ extern (*go/types.Pointer).Elem() types.Type
+//@   pure
+//@ func impl$1$2
+//@   requires term != nil && istype(term.Type().Underlying(), *types.Pointer)
+//@   modifies heap
